@@ -436,6 +436,38 @@ func init() {
 		} else {
 			fail("func (*File) DeleteTable")
 		}
+		// DeletePivotTable: the worksheet relationship goes, the pivot table part, its own
+		// relationship and the cache part stay; the workbook relationship + <pivotCache> entry
+		// go only when this pivot table was the last user of the cache
+		pivotKeeps := "false"
+		if fd := funcDecl("File", "DeletePivotTable"); fd != nil {
+			body := src(fd.Body)
+			for _, pat := range []string{"if pivotTableCaches[opt.pivotCacheXML] == 1 {", "err = f.deleteWorkbookPivotCache(opt)", "f.deleteSheetRelationships(sheet, v.ID)"} {
+				if !strings.Contains(body, pat) {
+					fail("DeletePivotTable: skeleton `%s`", pat)
+				}
+			}
+			if !strings.Contains(body, "Pkg.Delete") && !strings.Contains(body, "removeContentTypesPart") {
+				pivotKeeps = "true"
+			}
+		} else {
+			fail("func (*File) DeletePivotTable")
+		}
+		if fd := funcDecl("File", "deleteWorkbookPivotCache"); fd != nil {
+			body := src(fd.Body)
+			for _, pat := range []string{"rID, err := f.deleteWorkbookRels(SourceRelationshipPivotCache,", "if pivotCache.RID == rID {",
+				"wb.PivotCaches.PivotCache = append(wb.PivotCaches.PivotCache[:i], wb.PivotCaches.PivotCache[i+1:]...)"} {
+				if !strings.Contains(body, pat) {
+					fail("deleteWorkbookPivotCache: skeleton `%s`", pat)
+				}
+			}
+			if strings.Contains(body, "Pkg.Delete") || strings.Contains(body, "removeContentTypesPart") {
+				pivotKeeps = "false"
+			}
+		} else {
+			fail("func (*File) deleteWorkbookPivotCache")
+		}
+		fmt.Fprintf(w, "def deletePivotKeepsParts : Bool := %s\n", pivotKeeps)
 		// the cell setters and the calculation chain
 		sstFactsLate := func(fn string, pats ...string) {
 			fd := funcDecl("File", fn)
